@@ -3,9 +3,15 @@
 import os
 import sys
 
-if os.environ.get("PYTHONHASHSEED") != "0":
-    # hash randomisation is fixed at interpreter start: re-exec once with it pinned
-    os.environ["PYTHONHASHSEED"] = "0"
+try:
+    _HASHSEED = str((int(os.environ.get("VERIF_SEED", "1")) - 1) % 4294967296)
+except ValueError:
+    _HASHSEED = "0"
+if os.environ.get("PYTHONHASHSEED") != _HASHSEED:
+    # hash randomisation is fixed at interpreter start: re-exec once with it pinned.  The pinned value
+    # is a function of VERIF_SEED (seed 1 -> 0), so that a run is reproducible from its seed and
+    # different seeds also see different str/bytes hash orders (set / dict iteration in the library)
+    os.environ["PYTHONHASHSEED"] = _HASHSEED
     os.environ["PYTHONDONTWRITEBYTECODE"] = "1"
     os.execv(sys.executable, [sys.executable] + sys.argv)
 sys.dont_write_bytecode = True
